@@ -571,6 +571,14 @@ class MEDDLY::forest {
             return nodeHeaders.lastUsedHandle();
         }
 
+#ifdef MEDDLY_VERIF
+        /// Verification hook: number of compute table entries
+        /// that mention node p, as recorded in the node headers.
+        inline unsigned long verifCacheCount(node_handle p) const {
+            return nodeHeaders.getNodeCacheCount(p);
+        }
+#endif
+
         /// Returns the in-count for a node.
         inline unsigned long getNodeInCount(node_handle p) const {
 #ifdef REFCOUNTS_ON
